@@ -17,15 +17,18 @@ import (
 	"sync"
 	"time"
 
+	dto "github.com/prometheus/client_model/go"
 	"google.golang.org/grpc/peer"
 
 	"github.com/drand/drand/v2/common"
 	"github.com/drand/drand/v2/common/log"
+	"github.com/drand/drand/v2/crypto"
 	"github.com/drand/drand/v2/internal/chain"
 	"github.com/drand/drand/v2/internal/chain/beacon"
 	"github.com/drand/drand/v2/internal/chain/boltdb"
 	chainerrors "github.com/drand/drand/v2/internal/chain/errors"
 	"github.com/drand/drand/v2/internal/chain/memdb"
+	"github.com/drand/drand/v2/internal/metrics"
 	proto "github.com/drand/drand/v2/protobuf/drand"
 	"github.com/drand/drand/v2/zzverif/emit"
 )
@@ -47,13 +50,14 @@ const (
 )
 
 type event struct {
-	kind evKind
-	d    int64  // Put: content token
-	cid  int    // Start
-	from uint64 // Start
-	k    int    // Ack / Register: stream index
-	ok   bool   // Ack
-	ctx  int    // Put: 0 = live context, 1 = context cancelled between the commit and the dispatch, 2 = cancelled before the call
+	kind   evKind
+	d      int64  // Put: content token
+	cid    int    // Start
+	from   uint64 // Start
+	k      int    // Ack / Register: stream index
+	ok     bool   // Ack
+	cancel bool   // Register: the stream context is cancelled right after AddCallback returned (the client is gone)
+	ctx    int    // Put: 0 = live context, 1 = context cancelled between the commit and the dispatch, 2 = cancelled before the call
 }
 
 func (e event) coq() string {
@@ -68,12 +72,16 @@ func (e event) coq() string {
 	case evAck:
 		return fmt.Sprintf("SAck %d %s", e.k, emit.Bool(e.ok))
 	}
+	if e.cancel {
+		return fmt.Sprintf("SRegisterCancel %d", e.k)
+	}
 	return fmt.Sprintf("SRegister %d", e.k)
 }
 
 type sent struct {
 	round uint64
-	tok   int64
+	tok   int64 // content token of the signature
+	prev  int64 // content token of the previous signature, -1 when it is empty
 }
 
 func tokSig(d int64) []byte {
@@ -90,6 +98,7 @@ func sigTok(s []byte) int64 {
 
 // ---- fake stream ----
 type fakeStream struct {
+	cancel  context.CancelFunc
 	ctx     context.Context
 	mu      sync.Mutex
 	sent    []sent
@@ -107,7 +116,7 @@ func (f *fakeStream) Send(p *proto.BeaconPacket) error {
 		f.mu.Unlock()
 		return errSend
 	}
-	s := sent{p.GetRound(), sigTok(p.GetSignature())}
+	s := sent{p.GetRound(), sigTok(p.GetSignature()), sigTok(p.GetPreviousSignature())}
 	f.sent = append(f.sent, s)
 	f.mu.Unlock()
 	f.entered <- s
@@ -132,12 +141,17 @@ type gatedStore struct {
 	atAdd chan struct{}
 	gate  chan struct{}
 	added chan struct{}
+	// afterAdd, when set, runs between the return of the real AddCallback and the return to SyncChain
+	afterAdd func()
 }
 
 func (g *gatedStore) AddCallback(id string, fn beacon.CallbackFunc) {
 	g.atAdd <- struct{}{}
 	<-g.gate
 	g.CallbackStore.AddCallback(id, fn)
+	if g.afterAdd != nil {
+		g.afterAdd()
+	}
 	g.added <- struct{}{}
 }
 
@@ -196,6 +210,9 @@ type streamRun struct {
 }
 
 type world struct {
+	stack string // bare: callback store directly over the back-end; chained / unchained: the daemon's
+	// stack callback(append(scheme(back-end))) with that scheme
+	name    string // logger name = label of the sync_total_callbacks gauge of this world's callback store
 	backend string
 	dir     string
 	base    chain.Store
@@ -257,14 +274,31 @@ func boltDir(backend, root string, n int) (string, error) {
 
 var worldN int
 
-func newWorld(backend, root string, genesis int64) (*world, error) {
-	w := &world{backend: backend, reg: map[int]int{}, toks: map[uint64]int64{}}
+var schemes = map[string]*crypto.Scheme{}
+
+func schemeOf(stack string) *crypto.Scheme {
+	if sch, ok := schemes[stack]; ok {
+		return sch
+	}
+	sch := crypto.NewPedersenBLSChained()
+	if stack == "unchained" {
+		sch = crypto.NewPedersenBLSUnchained()
+	}
+	schemes[stack] = sch
+	return sch
+}
+
+func newWorld(backend, stack, root string, genesis int64) (*world, error) {
+	worldN++
+	w := &world{backend: backend, stack: stack, name: fmt.Sprintf("zzv-stream-%d", worldN), reg: map[int]int{}, toks: map[uint64]int64{}}
 	ctx := context.Background()
+	if stack == "chained" {
+		ctx = chain.SetPreviousRequiredOnContext(ctx) // trimmed bolt rebuilds the previous signature
+	}
 	switch backend {
 	case "mem":
 		w.base = memdb.NewStore(5000)
 	case "boltT", "boltU":
-		worldN++
 		dir, err := boltDir(backend, root, worldN)
 		if err != nil {
 			return nil, err
@@ -279,12 +313,24 @@ func newWorld(backend, root string, genesis int64) (*world, error) {
 		}
 		w.base = st
 	}
-	w.pause = &pausingStore{Store: w.base, stored: make(chan struct{}, 1), resume: make(chan struct{})}
-	w.cbs = beacon.NewCallbackStore(quiet(), w.pause)
-	if err := w.cbs.Put(ctx, &common.Beacon{Round: 0, Signature: tokSig(genesis)}); err != nil {
+	if err := w.base.Put(ctx, &common.Beacon{Round: 0, Signature: tokSig(genesis)}); err != nil {
 		return nil, err
 	}
 	w.toks[0] = genesis
+	inner := w.base
+	if stack != "bare" {
+		// as newChainStore builds it: the scheme store under the append store under the callback store
+		sch := schemeOf(stack)
+		ss, err := beacon.NewSchemeStore(ctx, w.base, sch)
+		if err != nil {
+			return nil, err
+		}
+		if inner, err = beacon.NewAppendStore(ctx, ss); err != nil {
+			return nil, err
+		}
+	}
+	w.pause = &pausingStore{Store: inner, stored: make(chan struct{}, 1), resume: make(chan struct{})}
+	w.cbs = beacon.NewCallbackStore(quiet().Named(w.name), w.pause)
 	return w, nil
 }
 
@@ -363,6 +409,10 @@ func (w *world) do(e event) {
 	case evPut:
 		round := w.head + 1
 		b := &common.Beacon{Round: round, Signature: tokSig(e.d)}
+		if w.stack != "bare" {
+			// like the aggregator and sync peers: the beacon arrives with the previous signature set
+			b.PreviousSig = tokSig(w.toks[w.head])
+		}
 		pctx := ctx
 		if e.ctx != 0 {
 			var cancel context.CancelFunc
@@ -417,7 +467,7 @@ func (w *world) do(e event) {
 	case evStart:
 		fs := &fakeStream{entered: make(chan sent, 1024), ack: make(chan bool)}
 		addr := tcpAddr{fmt.Sprintf("203.0.113.%d:7000", e.cid)}
-		fs.ctx = peer.NewContext(context.Background(), &peer.Peer{Addr: addr})
+		fs.ctx, fs.cancel = context.WithCancel(peer.NewContext(context.Background(), &peer.Peer{Addr: addr}))
 		gs := &gatedStore{CallbackStore: w.cbs, atAdd: make(chan struct{}, 1), gate: make(chan struct{}), added: make(chan struct{}, 1)}
 		r := &streamRun{fs: fs, gs: gs, done: make(chan error, 1), phase: "scan", cid: e.cid, started: true, winRounds: map[uint64]bool{}}
 		if e.from == 0 {
@@ -496,6 +546,9 @@ func (w *world) do(e event) {
 			return
 		}
 		r.atGate = false
+		if e.cancel {
+			r.gs.afterAdd = r.fs.cancel
+		}
 		r.gs.gate <- struct{}{}
 		select {
 		case <-r.gs.added:
@@ -517,6 +570,18 @@ func (w *world) do(e event) {
 				}
 			}
 		}
+		if e.cancel {
+			// the client is gone: SyncChain unregisters and returns the context's error
+			delete(w.reg, r.cid)
+			select {
+			case err := <-r.done:
+				r.done <- err
+			case <-time.After(w.patience()):
+				w.note("SyncChain did not return after its context was cancelled")
+			}
+			r.phase = "done"
+			return
+		}
 		w.reg[r.cid] = e.k
 		r.phase = "live"
 		r.busy, r.qlen = false, 0
@@ -529,8 +594,20 @@ func (w *world) do(e event) {
 }
 
 type obs struct {
-	sent []sent
-	err  string // "" still running, else NoBeacon | Send | Replaced | Other
+	sent   []sent
+	stored []sent // what the store (through the whole stack) returns for the round of each sent beacon
+	err    string // "" still running, else NoBeacon | Send | Replaced | Canceled | Other
+}
+
+// registered reads the sync_total_callbacks gauge of this world's callback store (len(callbacks),
+// set by every AddCallback / RemoveCallback; a RemoveCallback of an unknown id refreshes it).
+func (w *world) registered() int {
+	w.cbs.RemoveCallback("zzv-probe-not-registered")
+	var m dto.Metric
+	if err := metrics.SyncCallbacks.WithLabelValues(w.name).Write(&m); err != nil || m.GetGauge() == nil {
+		return -1
+	}
+	return int(m.GetGauge().GetValue())
 }
 
 func (w *world) finish() []obs {
@@ -546,6 +623,13 @@ func (w *world) finish() []obs {
 		r.fs.mu.Lock()
 		out[i].sent = append([]sent(nil), r.fs.sent...)
 		r.fs.mu.Unlock()
+		for _, s := range out[i].sent {
+			st := sent{round: s.round, tok: -2, prev: -2}
+			if b, err := w.cbs.Get(context.Background(), s.round); err == nil && b != nil {
+				st.tok, st.prev = sigTok(b.Signature), sigTok(b.PreviousSig)
+			}
+			out[i].stored = append(out[i].stored, st)
+		}
 		select {
 		case err := <-r.done:
 			switch {
@@ -555,6 +639,8 @@ func (w *world) finish() []obs {
 				out[i].err = "Replaced"
 			case errors.Is(err, errSend):
 				out[i].err = "Send"
+			case errors.Is(err, context.Canceled):
+				out[i].err = "Canceled"
 			default:
 				out[i].err = "Other"
 			}
@@ -569,7 +655,7 @@ func (w *world) finish() []obs {
 // catch-up sends that beacon from the store and the callback must then drop it. Returns the rounds
 // passed to Send.
 func straddle(root, backend string) ([]uint64, string, error) {
-	w, err := newWorld(backend, root, 7)
+	w, err := newWorld(backend, "bare", root, 7)
 	if err != nil {
 		return nil, "", err
 	}
@@ -705,6 +791,34 @@ func witnessScenarios(rng *rand.Rand) []scenario {
 		}
 		out = append(out, scenario{name: name, genesis: 7, script: s6})
 	}
+	// consumers that are gone exactly in the hand-over: a beacon is stored between the end of the scan
+	// and AddCallback, and the Send of that beacon fails; one connection (address) after the other
+	var s7 []event
+	s7 = append(s7, puts(rng, 2)...)
+	for c := 0; c < 6; c++ {
+		s7 = append(s7, event{kind: evStart, cid: 10 + c, from: uint64(2 + c)}, event{kind: evAck, k: c, ok: true})
+		s7 = append(s7, puts(rng, 1)...)
+		s7 = append(s7, event{kind: evRegister, k: c}, event{kind: evAck, k: c, ok: false})
+	}
+	s7 = append(s7, puts(rng, 2)...)
+	out = append(out, scenario{name: "consumer-gone-during-handover", genesis: 7, script: s7})
+	// the stream context is cancelled between AddCallback and the catch-up (with and without a beacon to
+	// catch up on)
+	var s8 []event
+	s8 = append(s8, puts(rng, 2)...)
+	for c := 0; c < 6; c++ {
+		s8 = append(s8, event{kind: evStart, cid: 20 + c, from: uint64(2 + c/2)}, event{kind: evAck, k: c, ok: true})
+		if c%2 == 1 {
+			s8 = append(s8, event{kind: evAck, k: c, ok: true})
+		} else {
+			s8 = append(s8, puts(rng, 1)...)
+		}
+		s8 = append(s8, event{kind: evRegister, k: c, cancel: true})
+	}
+	s8 = append(s8, event{kind: evStart, cid: 20, from: 0}, event{kind: evRegister, k: 6})
+	s8 = append(s8, puts(rng, 2)...)
+	s8 = append(s8, event{kind: evAck, k: 6, ok: true})
+	out = append(out, scenario{name: "context-cancelled-at-addcallback", genesis: 7, script: s8})
 	return out
 }
 
@@ -856,6 +970,9 @@ func randomScenario(rng *rand.Rand, windowPuts bool) scenario {
 type outcome struct {
 	sc      scenario
 	backend string
+	stack   string
+	nreg    int // callbacks registered in the real callback store at the end
+	running int // SyncChain calls that have not returned
 	obs     []obs
 	wins    []bool
 	winRnds []map[uint64]bool
@@ -864,8 +981,8 @@ type outcome struct {
 	problem string
 }
 
-func runOne(root string, sc scenario, backend string) (outcome, error) {
-	w, err := newWorld(backend, root, sc.genesis)
+func runOne(root string, sc scenario, backend, stack string) (outcome, error) {
+	w, err := newWorld(backend, stack, root, sc.genesis)
 	if err != nil {
 		return outcome{}, err
 	}
@@ -874,7 +991,13 @@ func runOne(root string, sc scenario, backend string) (outcome, error) {
 	for _, e := range sc.script {
 		w.do(e)
 	}
-	o := outcome{sc: sc, backend: backend, obs: w.finish(), toks: w.toks, problem: w.problem}
+	o := outcome{sc: sc, backend: backend, stack: stack, obs: w.finish(), toks: w.toks, problem: w.problem}
+	o.nreg = w.registered()
+	for _, x := range o.obs {
+		if x.err == "" {
+			o.running++
+		}
+	}
 	if w.problem != "" {
 		anomalies++
 	}
@@ -900,7 +1023,7 @@ func coqCase(o outcome) string {
 	for i, x := range o.obs {
 		ss := make([]string, len(x.sent))
 		for j, s := range x.sent {
-			ss[j] = fmt.Sprintf("(%d, %s)", s.round, emit.Z(s.tok))
+			ss[j] = fmt.Sprintf("(%d, %s, %s)", s.round, emit.Z(s.tok), emit.Z(s.prev))
 		}
 		e := "0"
 		switch x.err {
@@ -910,12 +1033,14 @@ func coqCase(o outcome) string {
 			e = "2"
 		case "Replaced":
 			e = "3"
+		case "Canceled":
+			e = "4"
 		case "Other":
 			e = "9"
 		}
 		ob[i] = fmt.Sprintf("(%s, %s)", emit.List(ss), e)
 	}
-	return fmt.Sprintf("SCase %s %d %s %s", bk, o.sc.genesis, emit.List(evs), emit.List(ob))
+	return fmt.Sprintf("SCase %s %s %d %s %s %d", bk, emit.Bool(o.stack == "chained"), o.sc.genesis, emit.List(evs), emit.List(ob), o.nreg)
 }
 
 var classCount = map[string]int{}
@@ -936,9 +1061,17 @@ func monitor(rep *emit.Report, o outcome) {
 			rounds[i] = s.round
 		}
 		in := map[string]interface{}{"scenario": o.sc.name, "backend": o.backend, "stream": k, "from": o.bases[k], "sent": rounds}
-		for _, s := range x.sent {
+		for j, s := range x.sent {
 			if tok, ok := o.toks[s.round]; !ok || tok != s.tok {
 				failOnce(rep, "C11-delivered-differs-from-stored", "a delivered beacon is not the stored beacon of that round", in)
+			}
+			// each delivered beacon equals what the store returns for that round: round, signature and
+			// previous signature
+			if st := x.stored[j]; st.tok != s.tok || st.prev != s.prev {
+				in2 := map[string]interface{}{"scenario": o.sc.name, "backend": o.backend, "stack": o.stack, "stream": k, "round": s.round,
+					"delivered_sig": s.tok, "delivered_prev": s.prev, "stored_sig": st.tok, "stored_prev": st.prev, "position_in_stream": j}
+				failOnce(rep, "C11-delivered-beacon-differs-from-stored",
+					fmt.Sprintf("stream %d was sent round %d with (signature token %d, previous-signature token %d) but the store returns (%d, %d) for that round (-1 = empty); stack %s on %s", k, s.round, s.tok, s.prev, st.tok, st.prev, o.stack, o.backend), in2)
 			}
 		}
 		// contiguous from the start round?
@@ -972,6 +1105,19 @@ func monitor(rep *emit.Report, o outcome) {
 			failOnce(rep, "C11-stream-not-contiguous", fmt.Sprintf("sent sequence is not %d, %d, ... and is not explained by appends in the hand-over window: %v", o.bases[k], o.bases[k]+1, rounds), in)
 		}
 	}
+	// every SyncChain call that has returned has unregistered its callback: the callback store holds at
+	// most one callback per call that is still running
+	if o.nreg > o.running {
+		ended := []int{}
+		for k, x := range o.obs {
+			if x.err != "" {
+				ended = append(ended, k)
+			}
+		}
+		failOnce(rep, "C12-callback-leaked-after-stream-end",
+			fmt.Sprintf("%d callbacks (worker goroutine and %d-slot queue each) are still registered in the callback store although only %d SyncChain calls are still running", o.nreg, beacon.CallbackWorkerQueue, o.running),
+			map[string]interface{}{"scenario": o.sc.name, "backend": o.backend, "stack": o.stack, "registered_callbacks": o.nreg, "running_streams": o.running, "ended_streams": ended, "events": len(o.sc.script)})
+	}
 	if o.problem != "" {
 		failOnce(rep, "C11-harness-stuck", o.problem, map[string]interface{}{"scenario": o.sc.name, "backend": o.backend})
 	}
@@ -1001,29 +1147,42 @@ func Run(outDir string, seed int64, tier string) error {
 	backends := []string{"mem", "boltT", "boltU"}
 	var cases, descr []string
 	distinct := map[string]bool{}
+	secs := map[string]float64{}
+	rep.Extra["seconds_by_scenario_and_backend"] = secs
 	for i, sc := range scs {
 		for bi, b := range backends {
 			if i >= nW && tier != "thorough" && (i+bi)%3 == 2 {
 				continue // quick tier: two of the three back-ends per random script
 			}
-			o, err := runOne(root, sc, b)
-			if err != nil {
-				return err
+			stacks := []string{[]string{"unchained", "chained", "bare"}[(i+2*bi)%3]}
+			if i < nW {
+				stacks = []string{"chained", "unchained"} // witness scripts: the daemon's stack, both scheme families
+				if b == "mem" {
+					stacks = append(stacks, "bare")
+				}
 			}
-			cases = append(cases, coqCase(o))
-			nsent := 0
-			for _, x := range o.obs {
-				nsent += len(x.sent)
-			}
-			descr = append(descr, fmt.Sprintf("SCase %s on %s (%d events, %d streams, %d beacons sent)", sc.name, b, len(sc.script), len(o.obs), nsent))
-			rep.Evaluations += len(sc.script)
-			rep.Count("stream/" + b + "/" + sc.name)
-			monitor(rep, o)
-			for _, e := range sc.script {
-				distinct[b+"|"+e.coq()] = true
-			}
-			if len(rep.Samples) < 8 {
-				rep.Sample(descr[len(descr)-1], 8)
+			for _, stack := range stacks {
+				t0 := time.Now()
+				o, err := runOne(root, sc, b, stack)
+				if err != nil {
+					return err
+				}
+				secs[sc.name+"/"+b] += time.Since(t0).Seconds()
+				cases = append(cases, coqCase(o))
+				nsent := 0
+				for _, x := range o.obs {
+					nsent += len(x.sent)
+				}
+				descr = append(descr, fmt.Sprintf("SCase %s on %s, stack %s (%d events, %d streams, %d beacons sent, %d callbacks registered at the end)", sc.name, b, stack, len(sc.script), len(o.obs), nsent, o.nreg))
+				rep.Evaluations += len(sc.script)
+				rep.Count("stream/" + b + "/" + stack + "/" + sc.name)
+				monitor(rep, o)
+				for _, e := range sc.script {
+					distinct[b+"|"+e.coq()] = true
+				}
+				if len(rep.Samples) < 8 {
+					rep.Sample(descr[len(descr)-1], 8)
+				}
 			}
 		}
 	}
@@ -1049,7 +1208,7 @@ func Run(outDir string, seed int64, tier string) error {
 		}
 	}
 	rep.DistinctNontrivial = len(distinct)
-	rep.Rule = "real SyncChain over the real callback store on memdb, trimmed bolt and untrimmed bolt; Send and AddCallback gated so that the harness places every Put relative to each scan step and registration; witness scripts (Puts whose context is cancelled between the commit and the dispatch or before the call while several streams are live, Put between scan end and AddCallback, Put during the scan, no Put in the window, same-id reconnect, start at 0 / head / beyond head; a Put paused between its store write and its dispatch while AddCallback runs - monitor only) and random scripts with 1-3 concurrent streams, reconnects, refused Sends and Puts with cancelled contexts; distinct = distinct (back-end, event); an evaluation = one event"
+	rep.Rule = "real SyncChain over the daemon's store stack callback(append(scheme(back-end))) with a chained and an unchained scheme (beacons arrive with the previous signature set) and over the bare callback store, on memdb, trimmed bolt and untrimmed bolt; every delivered beacon (round, signature, previous signature) is compared with what the store returns for that round; the callbacks left in the real callback store (sync_total_callbacks gauge) are compared with the SyncChain calls still running; Send and AddCallback gated so that the harness places every Put relative to each scan step and registration; witness scripts (Puts whose context is cancelled between the commit and the dispatch or before the call while several streams are live, Put between scan end and AddCallback, Put during the scan, no Put in the window, same-id reconnect, start at 0 / head / beyond head; a Put paused between its store write and its dispatch while AddCallback runs - monitor only) and random scripts with 1-3 concurrent streams, reconnects, refused Sends and Puts with cancelled contexts; distinct = distinct (back-end, event); an evaluation = one event"
 	if err := rep.Shard(outDir, "cases_stream", []string{"From DV Require Import Model.Stream Corr.StreamCorr."}, "scase", "mismatches", cases, descr, 60); err != nil {
 		return err
 	}
